@@ -854,6 +854,10 @@ func childMain() {
 			res = childDSlow(sc)
 		case "dcancel":
 			res = childDCancel(sc)
+		case "bspflush":
+			res = childBSPFlush(sc)
+		case "mgate":
+			res = childMGate(sc)
 		}
 	}()
 	b, _ := json.Marshal(res)
@@ -1313,6 +1317,11 @@ func main() {
 		k := vgen.Pick(r, append(append([]string{}, traceKinds[1:]...), logKinds...))
 		scs = append(scs, scenario{Kind: "dstorm", Kinds: []string{k}, N: o.Count(150, 1000), G: r.Range(2, 6), Seed: r.U64()})
 	}
+	// ForceFlush queued behind an export in flight while Shutdown closes the stop channel (12 tries per child, 50 % each
+	// would hang a broken processor); periodic reader shut down with a cancelled context while its export is in flight
+	for i := 0; i < o.Count(3, 12); i++ {
+		scs = append(scs, scenario{Kind: "bspflush", N: 12}, scenario{Kind: "mgate", N: 6})
+	}
 	for i := 0; i < o.Count(48, 480); i++ { // first Shutdown with an already-cancelled context, then used and shut down again
 		scs = append(scs, genDCancel(r, i))
 	}
@@ -1487,6 +1496,16 @@ func main() {
 		if sc.Kind == "reent" {
 			desc["observed"] = oc.res
 			w.Add(reentCoq(sc, &oc.res), desc, kind, true)
+			continue
+		}
+		if sc.Kind == "bspflush" {
+			desc["observed"] = oc.res
+			w.Add(fmt.Sprintf("CDStorm true %d [%s]", oc.res.XShutdowns[0]-sc.N+1, oc.res.ShutErr), desc, kind, true)
+			continue
+		}
+		if sc.Kind == "mgate" {
+			desc["observed"] = oc.res
+			w.Add(fmt.Sprintf("CDStorm2 true %s %d []", intsCoq(oc.res.XShutdowns), oc.res.Late), desc, kind, true)
 			continue
 		}
 		if sc.Kind == "dcancel" {
